@@ -140,7 +140,13 @@ def judge(ck, rec, res, hdr):
         # m = (field, kind, value, detail)
         field, kind, v, detail = m
         base, w = [x["bitfield"] for x in rec.members if x["name"] == field][0]
-        if kind == "get" and SIGNED[base] and w < WIDTH[base] * 1 + 0 and v_is_negative_in_field(v, w):
+        if rec.kind == "union":
+            cls = "C03-union-bitfields"
+            what = "bit-field accessors of a union disagree with C or are missing (allocation unit sized by the last field, fields after a separator dropped)"
+        elif preceded_by_data_member(field) and ((kind == "set" and shifted(detail)) or unit_shift):
+            cls = "C03-unit-offset:%s" % grp
+            what = "the allocation unit holding this bit-field sits at a different byte offset than in C (the stored bits are right, some bytes away; getters of the record read the wrong bytes)"
+        elif kind == "get" and SIGNED[base] and w < WIDTH[base] * 1 + 0 and v_is_negative_in_field(v, w):
             cls = "C03-signed-getter"
             what = "getter of a signed bit-field zero-extends: C reads a negative value, the Rust getter a positive one"
         elif kind == "get" and SIGNED[base] and w == WIDTH[base]:
